@@ -292,7 +292,7 @@ def operator_call(em, n, rd, args):
     if rd.get('name') == 'operator*' and len(args) == 1 and _is_vecit(em, args[0]):
         em.lowerings['M-vec(iterator deref)'] += 1
         a_ = em.E(args[0])
-        return '((%s).v->elem[(%s).idx])' % (a_, a_)
+        return '(*({ __typeof__(%s) __it = (%s); &__it.v->elem[__it.idx]; }))' % (a_, a_)
     if rd.get('name') == 'operator++' and len(args) >= 1 and _is_vecit(em, args[0]):
         em.lowerings['M-vec(iterator ++)'] += 1
         return '((%s).idx++)' % em.E(args[0])
@@ -302,8 +302,9 @@ def operator_call(em, n, rd, args):
     if rd.get('name') == 'operator[]' and len(args) == 2 and _is_map(em, args[0]):
         m_, k_ = em.E(args[0]), _kidx(_is_map(em, args[0]), em.E(args[1]))
         em.lowerings['M-map(operator[])'] += 1
-        return ('(*((%s).present[%s] ? &(%s).val[%s] : ((%s).val[%s] = (void *)0, (%s).present[%s] = 1, &(%s).val[%s])))'
-                % (m_, k_, m_, k_, m_, k_, m_, k_, m_, k_))
+        # object and key are evaluated exactly once (as in C++)
+        return ('(*({ __typeof__(&(%s)) __m = &(%s); __typeof__(%s) __k = (%s); if (!__m->present[__k]) { __m->val[__k] = (void *)0; __m->present[__k] = 1; } &__m->val[__k]; }))'
+                % (m_, m_, k_, k_))
     if rd.get('name') in ('operator==', 'operator!=') and len(args) == 2 and _is_mapit(em, args[0]) and _is_mapit(em, args[1]):
         em.lowerings['M-map(iterator compare)'] += 1
         return '((%s).idx %s (%s).idx)' % (em.E(args[0]), rd['name'][8:], em.E(args[1]))
@@ -344,7 +345,8 @@ def member_call(em, n, callee, obj, args, rd):
             return '(%s = %s)' % (o, em.E(args[0]))
         if nm == 'compare_exchange_strong' and len(args) >= 2:
             e = em.E(args[0])
-            return '((%s == %s) ? (%s = %s, (_Bool)1) : (%s = %s, (_Bool)0))' % (o, e, o, em.E(args[1]), e, o)
+            return ('({ __typeof__(&(%s)) __a = &(%s); __typeof__(&(%s)) __x = &(%s); __typeof__(%s) __d = (%s); _Bool __r; if (*__a == *__x) { *__a = __d; __r = 1; } else { *__x = *__a; __r = 0; } __r; })'
+                    % (o, o, e, e, o, em.E(args[1])))
         raise ExtractError('unmodelled atomic member ' + str(nm))
     if on.startswith('unique_ptr<'):
         em.lowerings['M-mem(unique_ptr.%s)' % nm] += 1
@@ -362,7 +364,7 @@ def member_call(em, n, callee, obj, args, rd):
         if nm == 'end' and not args:
             return '((struct M_vecit_voidp){ &(%s), (%s).len })' % (o, o)
         if nm == 'push_back' and len(args) == 1:
-            return '((%s).elem[(%s).len] = %s, (%s).len = (%s).len + 1UL, (void)0)' % (o, o, em.E(args[0]), o, o)
+            return '({ __typeof__(&(%s)) __v = &(%s); void *__e = (void *)(%s); __v->elem[__v->len] = __e; __v->len = __v->len + 1UL; (void)0; })' % (o, o, em.E(args[0]))
         if nm == 'pop_back' and not args:
             return '((%s).len = (%s).len - 1UL, (void)0)' % (o, o)
         if nm == 'back' and not args:
@@ -396,7 +398,7 @@ def member_call(em, n, callee, obj, args, rd):
         em.lowerings['M-map(%s)' % nm] += 1
         if nm == 'find' and len(args) == 1:
             k_ = _kidx(mcn, em.E(args[0]))
-            return '((struct %s){ &(%s), (%s).present[%s] ? (long)(%s) : -1L })' % (it, o, o, k_, k_)
+            return '({ __typeof__(&(%s)) __m = &(%s); __typeof__(%s) __k = (%s); (struct %s){ __m, __m->present[__k] ? (long)__k : -1L }; })' % (o, o, k_, k_, it)
         if nm == 'end' and not args:
             return '((struct %s){ &(%s), -1L })' % (it, o)
         if nm == 'erase' and len(args) == 1:
